@@ -56,6 +56,8 @@ pub struct SessionOut {
     /// order in which threads received the baton
     pub order_digest: u64,
     pub preempts_fired: u64,
+    /// events at atomic instructions of the library (a subset of `events`)
+    pub atomic_events: u64,
 }
 
 const NOBODY: u32 = u32::MAX;
@@ -71,6 +73,7 @@ struct Inner {
     lock_waits: u64,
     single_steps: u64,
     preempts_fired: u64,
+    atomic_events: u64,
 }
 struct Session {
     turn: AtomicU32,
@@ -93,6 +96,8 @@ thread_local! {
     static PREEMPTS: RefCell<Vec<(u64, u32)>> = const { RefCell::new(Vec::new()) };
     static NEXT_EVENT: Cell<u64> = const { Cell::new(u64::MAX) };
     static NEXT_STEPS: Cell<u32> = const { Cell::new(0) };
+    /// address of the breakpoint this thread has lifted for one instruction (atomics.rs), 0 = none
+    static REARM: Cell<usize> = const { Cell::new(0) };
 }
 
 #[inline(always)]
@@ -244,6 +249,8 @@ const SIGTRAP: i32 = 5;
 const SA_SIGINFO: u64 = 4;
 const SA_RESTART: u64 = 0x1000_0000;
 const REG_EFL: usize = 17;
+const REG_RIP: usize = 16;
+const TRAP_TRACE: i32 = 2;
 extern "C" {
     fn sigaction(sig: i32, act: *const LibcSigAction, old: *mut LibcSigAction) -> i32;
 }
@@ -257,10 +264,23 @@ struct LibcSigAction {
 }
 
 /// SIGTRAP: one instruction of a stepping window has executed.
-extern "C" fn on_trap(_sig: i32, _info: *mut core::ffi::c_void, ctx: *mut core::ffi::c_void) {
+extern "C" fn on_trap(_sig: i32, info: *mut core::ffi::c_void, ctx: *mut core::ffi::c_void) {
     // ucontext_t: uc_flags(8) uc_link(8) uc_stack(24) then mcontext gregs[23]
     let gregs = unsafe { (ctx as *mut u8).add(40) as *mut i64 };
     let clear = |g: *mut i64| unsafe { *g.add(REG_EFL) &= !0x100 };
+    // siginfo_t: si_signo, si_errno, si_code
+    let code = unsafe { *(info as *const i32).add(2) };
+    if code != TRAP_TRACE {
+        let rip = unsafe { *gregs.add(REG_RIP) } as usize;
+        if let Some(bp) = crate::atomics::lookup(rip.wrapping_sub(1)) {
+            return on_breakpoint(bp, gregs);
+        }
+    }
+    // the instruction under a lifted breakpoint has executed: put the breakpoint back
+    let lifted = REARM.try_with(|c| c.replace(0)).unwrap_or(0);
+    if lifted != 0 {
+        crate::atomics::rearm(lifted);
+    }
     if !STEPPING.try_with(|c| c.get()).unwrap_or(false) {
         clear(gregs);
         return;
@@ -295,6 +315,51 @@ extern "C" fn on_trap(_sig: i32, _info: *mut core::ffi::c_void, ctx: *mut core::
         yield_point(s, me, false);
         let _ = IN_HOOK.try_with(|c| c.set(false));
     }
+}
+
+/// `int3` at an atomic instruction of the library (atomics.rs): an event of this thread BEFORE the instruction executes.
+fn on_breakpoint(bp: &'static crate::atomics::Bp, gregs: *mut i64) {
+    let resume = |tf: bool| unsafe {
+        crate::atomics::restore(bp);
+        *gregs.add(REG_RIP) = bp.addr as i64;
+        if tf {
+            *gregs.add(REG_EFL) |= 0x100;
+        }
+    };
+    // a second trap at a breakpoint this thread has already lifted (another thread re-armed it in between): no new event
+    if REARM.try_with(|c| c.get()).unwrap_or(0) == bp.addr {
+        return resume(true);
+    }
+    let p = PART.try_with(|c| c.get()).unwrap_or(std::ptr::null());
+    if !p.is_null() && !IN_HOOK.try_with(|c| c.replace(true)).unwrap_or(true) {
+        let s = unsafe { &*p };
+        let me = MY_ID.try_with(|c| c.get()).unwrap_or(0);
+        let ev = EVENTS
+            .try_with(|c| {
+                let v = c.get() + 1;
+                c.set(v);
+                v
+            })
+            .unwrap_or(0);
+        unsafe { (*s.inner.get()).atomic_events += 1 };
+        let no_preempt = NO_PREEMPT.try_with(|c| c.get()).unwrap_or(true) || IN_ALLOC.try_with(|c| c.get()).unwrap_or(true);
+        let stepping = STEPPING.try_with(|c| c.get()).unwrap_or(false);
+        if !no_preempt && !stepping && NEXT_EVENT.try_with(|c| c.get()).unwrap_or(u64::MAX) <= ev {
+            let steps = NEXT_STEPS.try_with(|c| c.get()).unwrap_or(0);
+            load_next_preempt();
+            unsafe { (*s.inner.get()).preempts_fired += 1 };
+            if steps == 0 {
+                yield_point(s, me, false);
+            } else {
+                let _ = STEP_LEFT.try_with(|c| c.set(steps as i64));
+                let _ = STEPPING.try_with(|c| c.set(true));
+            }
+        }
+        let _ = IN_HOOK.try_with(|c| c.set(false));
+    }
+    // lift the breakpoint for one instruction; without thread-locals (thread teardown) it stays lifted
+    let can_rearm = REARM.try_with(|c| c.set(bp.addr)).is_ok();
+    resume(can_rearm);
 }
 
 pub fn install_trap_handler() {
@@ -347,13 +412,14 @@ fn run_calls(calls: &[Call], outs: &mut Vec<Out>, entropy: Xo) {
 /// Run one session under the simulator's scheduler.
 pub fn run_controlled(threads: &[Vec<Call>], seed: u64, preempts: &[Preempt]) -> SessionOut {
     install_trap_handler();
+    crate::atomics::arm();
     let n = threads.len().min(MAX_THREADS);
     STAT_SESSIONS.fetch_add(1, Ordering::Relaxed);
     let session = Session {
         turn: AtomicU32::new(NOBODY),
         n,
         done: [const { AtomicBool::new(false) }; MAX_THREADS],
-        inner: UnsafeCell::new(Inner { rng: Xo::derive(seed, &[0x5C4ED]), order_digest: 0xcbf29ce484222325, switches: 0, lock_waits: 0, single_steps: 0, preempts_fired: 0 }),
+        inner: UnsafeCell::new(Inner { rng: Xo::derive(seed, &[0x5C4ED]), order_digest: 0xcbf29ce484222325, switches: 0, lock_waits: 0, single_steps: 0, preempts_fired: 0, atomic_events: 0 }),
     };
     let first = Xo::derive(seed, &[0xF125]).below(n as u64) as u32;
     let mut outs: Vec<Vec<Out>> = (0..n).map(|i| Vec::with_capacity(threads[i].len())).collect();
@@ -400,7 +466,7 @@ pub fn run_controlled(threads: &[Vec<Call>], seed: u64, preempts: &[Preempt]) ->
         }
     });
     let inner = session.inner.into_inner();
-    SessionOut { outs, events, switches: inner.switches, lock_waits: inner.lock_waits, single_steps: inner.single_steps, order_digest: inner.order_digest, preempts_fired: inner.preempts_fired }
+    SessionOut { outs, events, switches: inner.switches, lock_waits: inner.lock_waits, single_steps: inner.single_steps, order_digest: inner.order_digest, preempts_fired: inner.preempts_fired, atomic_events: inner.atomic_events }
 }
 
 /// The same caller threads released from a barrier and interleaved by the operating system; every thread runs its
